@@ -6,9 +6,11 @@ var _ = time.Second
 
 var plans = map[string]Plan{
 	"C10": {
-		Pkg: "c10",
+		Pkg:   "c10",
+		Tools: []string{"bondmachine"},
 		Runs: []Run{
 			{Test: "^TestProps$/^topology$", Checks: checks(1500, 40000), Shards: shards(4, 16)},
+			{Test: "^TestProps$/^cli_topology$", Checks: checks(25, 500), Shards: shards(4, 8)},
 		},
 		Assumptions: []string{
 			"negative ids are never passed to Del_* (every caller in cmd/bondmachine guards them)",
@@ -16,9 +18,11 @@ var plans = map[string]Plan{
 		},
 	},
 	"C17": {
-		Pkg: "c17",
+		Pkg:   "c17",
+		Tools: []string{"simfinetune"},
 		Runs: []Run{
 			{Test: "^TestProps$/^no_leak$", Checks: checks(40, 600), Shards: shards(4, 16)},
+			{Test: "^TestProps$/^tuner_cli$", Checks: checks(8, 120), Shards: shards(3, 8)},
 		},
 		Assumptions: []string{
 			"goroutine counts are sampled after a bounded settle loop; the verdict is growth in BOTH of two equal further batches (a one-off lazy start cannot trip it)",
@@ -35,7 +39,7 @@ var plans = map[string]Plan{
 		},
 		Assumptions: []string{
 			"schedules are perturbed by the verif-tagged yield hook in Processor_execute plus GOMAXPROCS; an interleaving these cannot provoke is not explored",
-			"delay maps are not generated (a multi-valued distribution samples the global math/rand/v2 source: randomness by design)",
+			"delay maps are single-valued distributions (a multi-valued one samples the global math/rand/v2 source: randomness by design); one SimDelays object is shared by all simulations of a case",
 			"the number type passed to SinglePipelineSimulate has the register width of the machine",
 			"a race report or digest mismatch that depends on the schedule may not reproduce from the saved case; the saved race report is the artefact",
 		},
@@ -117,7 +121,7 @@ var plans = map[string]Plan{
 		Pkg:   "c01",
 		Level: "translation_validation",
 		Runs: []Run{
-			{Test: "^TestProps$/^lockstep$", Checks: checks(1500, 40000), Shards: shards(6, 16)},
+			{Test: "^TestProps$/^lockstep$", Checks: checks(1500, 15000), Shards: shards(6, 16), Timeout: tmo(15*time.Minute, 90*time.Minute)},
 		},
 		Assumptions: []string{
 			"A1: the generated Verilog is executed by /verif's 2-state interpreter with power-up zero; A2: intra-assignment delays (<= #1) are ordinary non-blocking assignments, the harness owns the clock",
